@@ -55,7 +55,7 @@ theorem find_erase_ne (m : Map κ ν) (k k2 : κ) (h : k ≠ k2) : find (erase m
       simpa [erase, List.filter_cons, find_cons, h] using ih
     · by_cases h2 : k' = k2
       · subst h2
-        simp [erase, List.filter_cons, h1, find_cons]
+        simp [erase, h1, find_cons]
       · simpa [erase, List.filter_cons, h1, find_cons, h2] using ih
 
 theorem find_erase (m : Map κ ν) (k k2 : κ) :
@@ -153,6 +153,46 @@ theorem Equiv.insert {a b : Map κ ν} (h : Equiv a b) (k : κ) (v : ν) :
     Equiv (insert a k v) (insert b k v) := fun k2 => by rw [find_insert, find_insert, h k2]
 theorem Equiv.erase {a b : Map κ ν} (h : Equiv a b) (k : κ) :
     Equiv (erase a k) (erase b k) := fun k2 => by rw [find_erase, find_erase, h k2]
+
+/-! ### re-keying through an injective function (e.g. name ↦ file path, multihash ↦ datastore key) -/
+
+section MapKey
+variable {κ' : Type} [DecidableEq κ']
+
+/-- the same bindings under keys `g k` -/
+def mapKey (g : κ → κ') (m : Map κ ν) : Map κ' ν := m.map fun p => (g p.1, p.2)
+
+theorem find_mapKey (g : κ → κ') (hg : ∀ a b, g a = g b → a = b) (m : Map κ ν) (k : κ) :
+    find (mapKey g m) (g k) = find m k := by
+  induction m with
+  | nil => rfl
+  | cons p r ih =>
+    obtain ⟨k', v⟩ := p
+    simp only [mapKey, List.map_cons, find_cons] at ih ⊢
+    by_cases h : k' = k
+    · simp [h]
+    · have : g k' ≠ g k := fun e => h (hg _ _ e)
+      simp [h, this, ih]
+
+theorem erase_mapKey (g : κ → κ') (hg : ∀ a b, g a = g b → a = b) (m : Map κ ν) (k : κ) :
+    erase (mapKey g m) (g k) = mapKey g (erase m k) := by
+  simp only [mapKey, erase, List.filter_map]
+  congr 1
+  apply List.filter_congr
+  intro p _
+  by_cases h : p.1 = k
+  · simp [h]
+  · have : g p.1 ≠ g k := fun e => h (hg _ _ e)
+    simp [h, this]
+
+theorem insert_mapKey (g : κ → κ') (hg : ∀ a b, g a = g b → a = b) (m : Map κ ν) (k : κ) (v : ν) :
+    insert (mapKey g m) (g k) v = mapKey g (insert m k v) := by
+  simp only [insert, erase_mapKey g hg]; rfl
+
+omit [DecidableEq κ] [DecidableEq κ'] in
+theorem keys_mapKey (g : κ → κ') (m : Map κ ν) : keys (mapKey g m) = (keys m).map g := by
+  simp [keys, mapKey, List.map_map, Function.comp_def]
+end MapKey
 
 example : find (insert (insert ([] : Map Nat Nat) 1 10) 1 11) 1 = some 11 := by decide
 example : keys (insert (insert ([] : Map Nat Nat) 1 10) 1 11) = [1] := by decide
